@@ -46,7 +46,10 @@ TraceSpec == TraceInit /\ [][TraceNext]_tvars
 Mark == /\ CheckInv("Agreement", Agreement) /\ CheckInv("DecideOnce", DecideOnce) /\ CheckInv("NonZero", NonZero)
         /\ CheckInv("LeaderProposed", LeaderProposed) /\ CheckInv("Validity", Validity)
         /\ CheckInv("QuorumBacked", QuorumBacked) /\ CheckInv("OneVotePerRound", OneVotePerRound)
-        /\ CheckInv("TypeOK", TypeOK) /\ CheckInv("NoHonestUnjust", NoHonestUnjust)
+        /\ CheckInv("TypeOK", TypeOK)
+\* NoHonestUnjust is C04's requirement (no Byzantine member, no compare failure: QBFTTimedTrace adds it); with the compare
+\* extension a leader may legitimately propose its own value over a prepared one (compareFailureRound = pr), which
+\* other members reject, so it is not demanded of arbitrary C02/C03 schedules.
 ActOK == /\ CheckInv("DecisionFrozen", \A p \in Honest : st[p].decided =>
                         (st'[p].decided /\ st'[p].dval = st[p].dval /\ st'[p].dround = st[p].dround
                          /\ st'[p].qc = st[p].qc /\ st'[p].ndec = st[p].ndec))
